@@ -36,13 +36,16 @@ def emit_kind(kind, ir, opts=None):
             kw["inline_types"] = o["inline"]
         if "kwonly" in o:
             kw["emit_as_kwonlyargs"] = o["kwonly"]
+        if "septab" in o:
+            kw["emit_separating_tab"] = o["septab"]
         fn = "f"
         if o.get("ftnone"):  # name and type are taken from the IR (the documented Optional arguments)
             ir["name"], ir["type"], fn, ft = "f", ft, None, None
         return to_code(emit.function(ir, function_name=fn, function_type=ft, word_wrap=o["ww"],
                                      emit_default_doc=o["edd"], **kw))
     if kind == "argparse":
-        return to_code(emit.argparse_function(ir, emit_default_doc=o["edd"], word_wrap=o["ww"]))
+        kw = {"wrap_description": o["wrapdesc"]} if "wrapdesc" in o else {}
+        return to_code(emit.argparse_function(ir, emit_default_doc=o["edd"], word_wrap=o["ww"], **kw))
     raise ValueError(kind)
 
 
@@ -273,6 +276,11 @@ class RoundTrip(core.Check):
             return [site(False, dict(cf, field="parse"), fail="parse_raise", **core.exc_obs(e))], nontrivial, "parse-raise"
         sites = [site(True, dict(cf, field="parse"))]
         _, _, ir0 = al.case_ir(case)
-        sites += compare(base, atoms, ret, case, ir0, back, self.policy)
+        policy = self.policy
+        if opts.get("septab") or opts.get("wrapdesc"):
+            # these two options re-lay-out the description by design (extra indentation / re-filled text): only its words
+            # are an obligation then
+            policy = dict(policy, summary_exact=False)
+        sites += compare(base, atoms, ret, case, ir0, back, policy)
         sites += self.extra_sites(case, atoms, ret, text, back, dict(cf))
         return sites, nontrivial, [text, [s["ok"] for s in sites]]
